@@ -103,6 +103,22 @@ impl Check for C02 {
                     }
                 }
             }
+            // a consumed sink with a write-back cache and interrupted flushes: success must mean the whole stream is durable
+            if out.violation.is_none() {
+                let pol = writeback_sink(&mut io.borrow_mut().ftape);
+                extra ^= policy_digest(&pol).rotate_left(17);
+                let sink = SimSink::new(&io, pol.clone());
+                let st = sink.store.clone();
+                match guard(|| lib.write(sink)) {
+                    Err(p) => out.violation = Some(panic_violation("GdsLibrary::write(writeback)", &p, json!({"library": lib_artefact(&lib)}))),
+                    Ok(Err(_)) => out.probes.hit("write_flush_interrupted_err_reported"),
+                    Ok(Ok(())) => {
+                        if *st.borrow() != bytes0 {
+                            out.violation = Some(Violation { class: "not-conserved".into(), sig: "write/writeback/bytes".into(), detail: format!("write reported success but the sink holds {} of {} bytes after {} interrupted flush call(s): the stream does not end with ENDLIB", st.borrow().len(), bytes0.len(), pol.flush_eintr), artefact: art(&lib, &bytes0) });
+                        }
+                    }
+                }
+            }
             if out.violation.is_none() {
                 let fs = SimFs::new(&io);
                 let _g = fs.install();
